@@ -139,6 +139,15 @@ theorem siteMat_comm (L : ℕ) (A B : Matrix Bool Bool ℂ) (i j : ℕ) (hij : i
   · simp [h2, hij.symm]
   · simp [h1, h2]
 
+theorem pair_term_herm (L : ℕ) (A : Letter) (w : ℂ) (hw : star w = w) (i j : ℕ) (hij : i ≠ j) :
+    (w • (siteMat L A.mat i * siteMat L A.mat j))ᴴ = w • (siteMat L A.mat i * siteMat L A.mat j) := by
+  rw [Matrix.conjTranspose_smul, Matrix.conjTranspose_mul, siteMat_conjTranspose, siteMat_conjTranspose, hw,
+    siteMat_comm L A.mat A.mat j i hij.symm]
+
+theorem site_term_herm (L : ℕ) (A : Letter) (w : ℂ) (hw : star w = w) (i : ℕ) :
+    (w • siteMat L A.mat i)ᴴ = w • siteMat L A.mat i := by
+  rw [Matrix.conjTranspose_smul, siteMat_conjTranspose, hw]
+
 /-! ### the scan as a sum, for an arbitrary linear denotation of strings -/
 
 section scan
